@@ -64,7 +64,9 @@ def run(res, tier, seed):
              ("gac_pod", "noaa7", 60, "dropped"),
              # POD with the clock-drift correction switched on (real table, TLE): neighbours of flagged lines must stay valid
              ("gac_pod", "noaa14", 60, "clean-drift"), ("lac_pod", "noaa14", 40, "clean-drift"),
-             ("gac_klm", "noaa19", 1300, "clean")]   # a pass of more than 1024 lines
+             ("gac_klm", "noaa19", 1300, "clean"),   # a pass of more than 1024 lines
+             # a record transmitted twice (same line number): one copy flagged, the other clean
+             ("gac_klm", "noaa18", 60, "repeated"), ("lac_pod", "noaa14", 40, "repeated")]
     if tier == "thorough":
         plans = [(f, s, n * 6 if n < 1000 else n, k) for f, s, n, k in plans] + [("gac_klm", "metopa", 600, "clean"), ("gac_pod", "noaa14", 600, "clean"), ("gac_klm", "noaa19", 4300, "clean"),
                                                              ("lac_pod", "noaa11", 90, "wrapped"), ("lac_klm", "metopc", 90, "dropped")]
@@ -85,6 +87,10 @@ def run(res, tier, seed):
             if pattern == "wrapped":
                 k = rng.randrange(3, n - 3)
                 numbers = list(range(n - k + 1, n + 1)) + list(range(1, n - k + 1))
+            elif pattern == "repeated":
+                j = rng.randrange(5, n - 5)
+                numbers = numbers[:j + 1] + numbers[j:n - 1]          # number j twice, still n records
+                qs[j], qs[j + 1] = rng.choice([(1 << 31, 0), (0, 1 << 31), (1 << MASKBITS[fam][1], 4)])
             elif pattern == "dropped":
                 numbers[rng.randrange(5, n - 5)] = 20000 if l1b.FMT[fmt]["res"] == "gac" else 65535
             sws = [rng.choice([0, 1]) for _ in range(n)]
@@ -117,8 +123,9 @@ def run(res, tier, seed):
                 if surv != exp_surv:
                     res.violations.append(("unexpected surviving records", dict(fmt=fmt, pattern=pattern, got=surv[:10], expected=exp_surv[:10])))
                     continue
-                byno = {l["n"]: l for l in lines}
-                lines = [byno[x] for x in surv]
+                if pattern != "repeated":       # (line numbers are not unique there; nothing is dropped or reordered)
+                    byno = {l["n"]: l for l in lines}
+                    lines = [byno[x] for x in surv]
                 qs = [l["qual"] for l in lines]
                 mask = np.asarray(r.mask)
                 qf = r.get_qual_flags()
